@@ -308,7 +308,7 @@ var _ = ctrl.New
 // Prop returns the C06 check.
 func Prop() *core.Prop {
 	req := []string{"stress_histories", "sentinels_answered", "routed_to_caller", "routed_to_handler", "porcupine_partitions",
-		"receipts_acknowledged", "receipts_cancelled", "receipt_messages_with_text_or_siblings_around_the_payload", "forced_scenarios", "fast_peer_holds", "fast_peer_answer_processed_while_sender_held", "requests_explicitly_namespaced", "requests_with_empty_id_attribute", "component_stream_histories", "close_deadline_moved_during_waits", "broken_replies_survived", "failed_transmissions_answered_by_peer",
+		"receipts_acknowledged", "receipts_cancelled", "receipt_messages_with_text_or_siblings_around_the_payload", "cancellations_placed_at_the_hand_over", "forced_scenarios", "fast_peer_holds", "fast_peer_answer_processed_while_sender_held", "requests_explicitly_namespaced", "requests_with_empty_id_attribute", "component_stream_histories", "close_deadline_moved_during_waits", "broken_replies_survived", "failed_transmissions_answered_by_peer",
 		"muc_wait_cases", "ibb_wait_cases", "C18/join_success", "C18/join_cancelled", "C18/join_room_error_returned", "C18/leave_success", "C18/barriers", "C18/forced_M1_reached",
 		"C15/transfers", "C15/eof_after_close", "C15/refused_opens", "C15/listener_cases"}
 	for _, v := range vias {
@@ -322,7 +322,7 @@ func Prop() *core.Prop {
 		Level: core.Exploration,
 		Race:  true,
 		Units: "porcupine_partitions",
-		Rule:  "the first cases are the forced interleavings F1-F7 (serve.lookup / serve.handoff / req.wait / req.done) and R1-R3 (receipts.notify / receipts.wait), each parked with the yield-point controller, and B1-B6 (the reply breaks off inside the response stanza - malformed XML or end of the connection - and the caller of SendIQ / IterIQ / UnmarshalIQ reads it to the end and disposes of it: the call and Serve must both return) and E1-E3 (the request's own transmission fails half-way under a context that never ends, the peer answers the truncated request: the reply belongs to the handler and the serve loop goes on); the rest are stress histories: 1-16 requester goroutines issuing blocking IQ get/set through all eight IQ entry points, tracked messages and presences through all eight of theirs, and receipts.SendMessageElement, against a raw peer that answers per request with a PRNG-chosen plan (reply, duplicate, wrong stanza kind, unknown id, no reply + cancel, late reply after cancel / after return, reply racing a cancel) and responses closed at once / after partial reads / late; a sentinel IQ must be answered at the end. Oracles: conservation over unique reply numbers (each routed exactly once, to the right caller or the handler), porcupine per request against the pending-table model, receipts outcome justification, recovered panics, quiescent-stall rule. Distinct = (entry point, reply plan shape, outcome), forced-scenario ids, and the observed interleaving of every request: the logical-clock order of its begin / seen-by-peer / cancel / cancel-returned / reply(type)→caller|handler / response-closed / end(outcome) events (signatures order/<entry point>/…).",
+		Rule:  "the first cases are the forced interleavings F1-F7 (serve.lookup / serve.handoff / req.wait / req.done) and R1-R3 (receipts.notify / receipts.wait), each parked with the yield-point controller, and B1-B6 (the reply breaks off inside the response stanza - malformed XML or end of the connection - and the caller of SendIQ / IterIQ / UnmarshalIQ reads it to the end and disposes of it: the call and Serve must both return) and H1-H8 (the caller's context is cancelled on the serve loop's goroutine exactly at the hand-over of the response, for each of the eight IQ entry points, four rounds each: the response must be disposed of whatever the call returns) and E1-E3 (the request's own transmission fails half-way under a context that never ends, the peer answers the truncated request: the reply belongs to the handler and the serve loop goes on); the rest are stress histories: 1-16 requester goroutines issuing blocking IQ get/set through all eight IQ entry points, tracked messages and presences through all eight of theirs, and receipts.SendMessageElement, against a raw peer that answers per request with a PRNG-chosen plan (reply, duplicate, wrong stanza kind, unknown id, no reply + cancel, late reply after cancel / after return, reply racing a cancel) and responses closed at once / after partial reads / late; a sentinel IQ must be answered at the end. Oracles: conservation over unique reply numbers (each routed exactly once, to the right caller or the handler), porcupine per request against the pending-table model, receipts outcome justification, recovered panics, quiescent-stall rule. Distinct = (entry point, reply plan shape, outcome), forced-scenario ids, and the observed interleaving of every request: the logical-clock order of its begin / seen-by-peer / cancel / cancel-returned / reply(type)→caller|handler / response-closed / end(outcome) events (signatures order/<entry point>/…).",
 		Assumptions: []string{
 			"when a reply and a cancellation overlap, routing to the caller or to the handler are both legal",
 			"callers always close the responses they receive (documented contract)",
